@@ -38,34 +38,19 @@ type lexEdge struct {
 
 func c09Progress(c *Ctx) {
 	const rule = "C09.progress"
-	lexT := c.w.namedType(pkgParser, "lexer")
-	if lexT == nil {
-		c.r.undecided(rule, "<anchor>", "lexer type not found")
+	// the lexer, its state functions and its primitives are structural anchors (rules_ag5.go): a rename of any of them
+	// must neither alarm nor switch this rule off, and a lexer whose parts cannot be identified is undecided, not "ok"
+	ps := c.a.PS
+	if !ps.need(rule, "lexer", "state type", "next", "peek", "backup") {
 		return
 	}
-	stateT := c.w.namedType(pkgParser, "stateFn")
-	var states []*ssa.Function
-	for _, fn := range c.w.ModFuncs {
-		if c.w.pkgPathOf(fn) != pkgParser || fn.Signature.Recv() != nil || fn.Parent() != nil {
-			continue
-		}
-		sig := fn.Signature
-		if sig.Params().Len() == 1 && sig.Results().Len() == 1 && typeIs(sig.Params().At(0).Type(), pkgParser, "lexer") && stateT != nil && types.Identical(sig.Results().At(0).Type(), stateT) {
-			states = append(states, fn)
-		}
-	}
+	stateT := ps.StateT
+	states := ps.States
 	if len(states) == 0 {
-		c.r.ok(rule, "lexer", "no state-function machine in the parser package")
+		c.r.undecided(rule, "lexer", "the parser package declares a state-function type but no function of that type: the machine the rule reasons about is not found")
 		return
 	}
-	nextFn := c.w.method(pkgParser, "lexer", "next")
-	peekFn := c.w.method(pkgParser, "lexer", "peek")
-	acceptFn := c.w.method(pkgParser, "lexer", "acceptRun")
-	backupFn := c.w.method(pkgParser, "lexer", "backup")
-	if nextFn == nil || peekFn == nil || backupFn == nil {
-		c.r.undecided(rule, "<anchor>", "lexer.next / peek / backup not found")
-		return
-	}
+	nextFn, peekFn, acceptFn, backupFn := ps.Next, ps.Peek, ps.AcceptRun, ps.Backup
 	// 0. the primitives have the assumed shape: peek = next; backup. acceptRun = loop over next, then backup.
 	okPeek := false
 	{
@@ -244,14 +229,7 @@ func c09Progress(c *Ctx) {
 		if c.w.pkgPathOf(fn) != pkgParser {
 			continue
 		}
-		isLexer := fn.Signature.Recv() != nil && typeIs(fn.Signature.Recv().Type(), pkgParser, "lexer")
-		isState := false
-		for _, s := range states {
-			if s == fn {
-				isState = true
-			}
-		}
-		if !isLexer && !isState {
+		if !ps.isLexMethod(fn) && !ps.isState(fn) {
 			continue
 		}
 		for k, l := range loopsOf(fn) {
@@ -261,7 +239,7 @@ func c09Progress(c *Ctx) {
 			for b := range l.blocks {
 				for _, ins := range b.Instrs {
 					if call, ok := ins.(*ssa.Call); ok && calleeFunc(&call.Call) == nil && !call.Call.IsInvoke() {
-						if stateT != nil && types.Identical(call.Call.Value.Type(), stateT) {
+						if types.Identical(call.Call.Value.Type(), stateT) {
 							callsState = true
 						}
 					}
@@ -811,19 +789,13 @@ func globalMapIntKeys(c *Ctx, g *ssa.Global) (map[int64]bool, bool) {
 // that marks the start of the current token.
 func c09NoDrop(c *Ctx) {
 	const rule = "C09.nodrop"
-	lexT := c.w.namedType(pkgParser, "lexer")
-	stateT := c.w.namedType(pkgParser, "stateFn")
-	nextFn := c.w.method(pkgParser, "lexer", "next")
-	peekFn := c.w.method(pkgParser, "lexer", "peek")
-	backupFn := c.w.method(pkgParser, "lexer", "backup")
-	if lexT == nil || stateT == nil || nextFn == nil {
-		c.r.ok(rule, "lexer", "no state-function lexer in the parser package")
+	ps := c.a.PS
+	if !ps.need(rule, "lexer", "state type", "next", "lexer start") {
 		return
 	}
-	startF := structFieldNamed(lexT, "start")
-	isLexMethod := func(f *ssa.Function) bool {
-		return f != nil && f.Signature.Recv() != nil && typeIs(f.Signature.Recv().Type(), pkgParser, "lexer") && f.Blocks != nil
-	}
+	nextFn, peekFn, backupFn := ps.Next, ps.Peek, ps.Backup
+	startF := ps.StartF
+	isLexMethod := func(f *ssa.Function) bool { return ps.isLexMethod(f) && f.Blocks != nil }
 	discharges := func(f *ssa.Function) bool {
 		if f == backupFn && backupFn != nil {
 			return true
@@ -860,14 +832,7 @@ func c09NoDrop(c *Ctx) {
 		return has && len(loopsOf(f)) > 0
 	}
 	n := 0
-	for _, fn := range c.w.ModFuncs {
-		if c.w.pkgPathOf(fn) != pkgParser || fn.Signature.Recv() != nil || fn.Parent() != nil {
-			continue
-		}
-		sig := fn.Signature
-		if !(sig.Params().Len() == 1 && sig.Results().Len() == 1 && typeIs(sig.Params().At(0).Type(), pkgParser, "lexer") && types.Identical(sig.Results().At(0).Type(), stateT)) {
-			continue
-		}
+	for _, fn := range ps.States {
 		n++
 		isDischarge := func(i ssa.Instruction) bool {
 			call, ok := i.(*ssa.Call)
@@ -891,7 +856,7 @@ func c09NoDrop(c *Ctx) {
 		}
 	}
 	if n == 0 {
-		c.r.ok(rule, "lexer", "no state functions found")
+		c.r.undecided(rule, "lexer", "no state functions found: the rule has nothing to examine")
 	}
 }
 
@@ -901,59 +866,28 @@ func c09NoDrop(c *Ctx) {
 // state this is "an unterminated string is never turned into a value token".
 func c09ClosedToken(c *Ctx) {
 	const rule = "C09.closedtoken"
-	lexT := c.w.namedType(pkgParser, "lexer")
-	stateT := c.w.namedType(pkgParser, "stateFn")
-	itemT := c.w.namedType(pkgParser, "itemType")
-	nextFn := c.w.method(pkgParser, "lexer", "next")
-	if lexT == nil || stateT == nil || nextFn == nil || itemT == nil {
-		c.r.ok(rule, "lexer", "no state-function lexer in the parser package")
+	ps := c.a.PS
+	if !ps.need(rule, "lexer", "state type", "next", "token kind type", "eof rune", "eof kind") {
 		return
 	}
-	eofK := c.w.constant(pkgParser, "eof")
-	eofItem := c.w.constant(pkgParser, "itemEOF")
-	if eofK == nil || eofItem == nil {
-		c.r.undecided(rule, "<anchor>", "the end-of-input rune constant or the end-of-input token type is not found")
-		return
-	}
-	eofVal, _ := constant.Int64Val(eofK.Value.Value)
-	eofItemVal, _ := constant.Int64Val(eofItem.Value.Value)
-	isLexMethod := func(f *ssa.Function) bool {
-		return f != nil && f.Signature.Recv() != nil && typeIs(f.Signature.Recv().Type(), pkgParser, "lexer") && f.Blocks != nil
-	}
-	sends := func(f *ssa.Function) bool {
-		return c.fc.mayContain(f, func(i ssa.Instruction) bool { _, ok := i.(*ssa.Send); return ok }, 1)
-	}
-	// emit-like: a sending lexer method that takes the token type; error-like: a sending lexer method that returns a state
+	nextFn := ps.Next
+	eofVal := *ps.EOFRune
+	// emit-like: a sending lexer method that takes the token kind; error-like: a sending lexer method that returns a state
 	isEmit := func(i ssa.Instruction) bool {
 		call, ok := i.(*ssa.Call)
 		if !ok {
 			return false
 		}
-		f := calleeFunc(&call.Call)
-		if !isLexMethod(f) || !sends(f) {
-			return false
-		}
-		for k, p := range f.Params {
-			if types.Identical(p.Type(), itemT) && k < len(call.Call.Args) {
-				if kv, isK := constInt(call.Call.Args[k]); isK && kv == eofItemVal {
-					return false // emitting the end-of-input token at the end of the input is right
-				}
-				return true
-			}
-		}
-		return false
-	}
-	isError := func(i ssa.Instruction) bool {
-		call, ok := i.(*ssa.Call)
+		arg, ok := ps.emitKindArg(call)
 		if !ok {
 			return false
 		}
-		f := calleeFunc(&call.Call)
-		if !isLexMethod(f) || !sends(f) {
-			return false
+		if k, isK := peelConv(arg).(*ssa.Const); isK && k.Value != nil && constant.Compare(k.Value, token.EQL, ps.EOFKind) {
+			return false // emitting the end-of-input token at the end of the input is right
 		}
-		return f.Signature.Results().Len() == 1 && types.Identical(f.Signature.Results().At(0).Type(), stateT)
+		return true
 	}
+	isError := ps.isErrorCall
 	fromNext := func(v ssa.Value) bool {
 		seen := map[ssa.Value]bool{}
 		var visit func(v ssa.Value) bool
@@ -980,14 +914,7 @@ func c09ClosedToken(c *Ctx) {
 		return visit(v)
 	}
 	n := 0
-	for _, fn := range c.w.ModFuncs {
-		if c.w.pkgPathOf(fn) != pkgParser || fn.Signature.Recv() != nil || fn.Parent() != nil {
-			continue
-		}
-		sig := fn.Signature
-		if !(sig.Params().Len() == 1 && sig.Results().Len() == 1 && typeIs(sig.Params().At(0).Type(), pkgParser, "lexer") && types.Identical(sig.Results().At(0).Type(), stateT)) {
-			continue
-		}
+	for _, fn := range ps.States {
 		var witness []ssa.Instruction
 		edges := 0
 		for _, b := range fn.Blocks {
